@@ -494,7 +494,7 @@ class RegionGeomToO:
                 "numbers in [0, 1]"
             )
 
-        times *= self.sourceOBSTime  # in s
+        times = times * self.sourceOBSTime  # in s (do not scale the caller's array in place)
         times = TimeDelta(times, format="sec")
         times = self.too_source.eventtime + times
         return times
